@@ -86,7 +86,7 @@ EmptyLay == [n |-> 0, srv |-> <<>>, ro |-> <<>>, dev |-> <<>>, repl |-> <<>>, cl
 Init ==
     /\ C!CInit(EmptyLay)
     /\ pc = "build"
-    /\ tieflip = FALSE /\ classes = <<>> /\ ci = 1 /\ order = <<>> /\ i = 1 /\ donef = FALSE
+    /\ tieflip = {} /\ classes = <<>> /\ ci = 1 /\ order = <<>> /\ i = 1 /\ donef = FALSE
     /\ want = {} /\ wantSrv = {} /\ wantMnt = {} /\ wantDev = {} /\ protMnt = {}
     /\ replWant = 0 /\ replProt = 0 /\ unsafe = {} /\ underrep = FALSE
     /\ todoT = {} /\ todoP = {} /\ lost = FALSE
@@ -125,9 +125,13 @@ ClassesOf == LET present == {c \in C!Classes : c = "default" \/ \E m \in Mounts 
              IN (IF "default" \in present THEN <<"default">> ELSE <<>>)
                 \o (IF "special" \in present THEN <<"special">> ELSE <<>>)
 
+\* the order of two mounts of one server with equal keys is decided by md5(block, DeviceID) in the code
+\* (or left to sort.Slice when the DeviceIDs are equal): arbitrary but fixed, chosen per server
+MultiMountSrvs == {s \in 1 .. MaxSrv : OnSrv(s) >= 2}
+
 Start ==
     /\ pc = "build"
-    /\ \E dd \in DesDefault, ds \in DesSpecial, tf \in BOOLEAN,
+    /\ \E dd \in DesDefault, ds \in DesSpecial, tf \in SUBSET MultiMountSrvs,
           sro \in (IF AllowRO THEN {{}} \cup {{s} : s \in 1 .. MaxSrv} ELSE {{}}) :
          LET des == [default |-> dd, special |-> ds] IN
          /\ \A s \in sro : OnSrv(s) > 0
@@ -147,13 +151,14 @@ Start ==
 
 InClass(m, c) == c \in lay.cls[m]
 
-\* sort.Slice comparator; the last key stands for rendezvousLess(DeviceID) (arbitrary but fixed)
+\* sort.Slice comparator; the last key stands for rendezvousLess(DeviceID): tieflip = the servers whose
+\* mounts come in descending mount order
 SlotLess(c, a, b) ==
     IF InClass(a, c) # InClass(b, c) THEN InClass(a, c)
     ELSE IF (a \in want) # (b \in want) THEN a \in want
     ELSE IF lay.srv[a] # lay.srv[b] THEN lay.srv[a] < lay.srv[b]
     ELSE IF lay.has[a] # lay.has[b] THEN lay.has[a]
-    ELSE IF tieflip THEN a > b ELSE a < b
+    ELSE IF lay.srv[a] \in tieflip THEN a > b ELSE a < b
 
 RECURSIVE SortBy(_, _)
 SortBy(c, S) == IF S = {} THEN <<>>
@@ -303,4 +308,36 @@ Emit == (pc = "emit") =>
                         openOptions |-> <<"WRITE", "CREATE", "APPEND">>])
 GenNext == AddMount \/ Start \/ ClassBegin \/ Pass1 \/ Pass2 \/ Under \/ WantDevStep \/ Final
 GenSpec == Init /\ [][GenNext]_vars
+--------------------------------------------------------------------------
+(* Prediction mode (checks/C05.py, known-finding matching): the layouts of the traces the contract   *)
+(* rejected are read from $VERIF_LAYOUTS (ndjson: {"id":k,"lay":{...}}), the algorithm is run on each  *)
+(* of them for every tie order, and the predicted result is printed.  A rejection is attributed to    *)
+(* a known finding only if the real code computed exactly the trash set this model - which contains   *)
+(* the known defects - predicts for the same layout.                                                  *)
+PRange(q) == {q[j] : j \in DOMAIN q}
+PLayouts == ndJsonDeserialize(IOEnv.VERIF_LAYOUTS)
+PDes(j, c) == IF c \in DOMAIN j.desired THEN j.desired[c] ELSE 0
+PConv(r) == LET j == r.lay IN
+            [n |-> j.n, srv |-> j.srv, ro |-> j.ro, dev |-> j.dev, repl |-> j.repl,
+             cls |-> [m \in 1 .. j.n |-> PRange(j.cls[m])], has |-> j.has, mt |-> j.mt,
+             srvro |-> PRange(j.srvro), cut |-> j.cut,
+             desired |-> [default |-> PDes(j, "default"), special |-> PDes(j, "special")], id |-> r.id]
+PMulti(L) == {s \in PRange(L.srv) : Cardinality({m \in 1 .. L.n : L.srv[m] = s}) >= 2}
+\* at most 2^6 tie orders per layout
+PFlips(L) == IF Cardinality(PMulti(L)) <= 6 THEN SUBSET PMulti(L) ELSE {{}, PMulti(L)}
+
+PredictInit ==
+    \E k \in 1 .. Len(PLayouts) : \E tf \in PFlips(PConv(PLayouts[k])) :
+        /\ lay = PConv(PLayouts[k])
+        /\ trashed = {} /\ fin = FALSE
+        /\ pc = "class" /\ tieflip = tf
+        /\ classes = ClassesOf /\ ci = 1 /\ order = <<>> /\ i = 1 /\ donef = FALSE
+        /\ want = {m \in Mounts : lay.has[m] /\ ERO(m)}
+        /\ wantSrv = {} /\ wantMnt = {} /\ wantDev = {} /\ protMnt = {}
+        /\ replWant = 0 /\ replProt = 0 /\ unsafe = {}
+        /\ underrep = \E c \in C!Classes : Des(c) > 0 /\ ~\E m \in Mounts : c \in lay.cls[m]
+        /\ todoT = {} /\ todoP = {} /\ lost = FALSE
+
+PredictOut == (pc = "emit") => PrintT(<<"PREDICT", lay.id, todoT, todoP, lost>>)
+PredictSpec == PredictInit /\ [][GenNext]_vars
 =============================================================================
